@@ -276,6 +276,30 @@ CLAIMED["C01"] = dict(
          "random lattices, meshes 1..5, both FFT libraries).",
     note=TB + "; external DFT contract as in C02; 1./Ndegen read as the rational; np.allclose in the code's own sanity assertions read as equality; np.linalg.norm / np.unique on concrete geometry are real numpy")
 
+CLAIMED["C27"] = dict(
+    text="Sum rule: the real text of formula.covariant.Omega (internal terms) on the real Formula / Formula_ln / Matrix_ln / elementary.Dcov "
+         "classes, executed on symbolic anti-Hermitian D (what a Hermitian model gives): for every partition of 2, 3 (quick) / 4 (thorough) "
+         "bands into band groups the traces over all groups add up to zero in all three components, at every k -- proved for all such D "
+         "(per shape), with a non-vacuity clause (one band alone is not identically zero). Data_K.D_H / dEig_inv (real text, symbolic "
+         "energies and velocity matrices, every ordering of gaps relative to the 1e-7 threshold): D = -V/(E_m-E_n), zero inside degenerate "
+         "groups, anti-Hermitian when V is Hermitian. AHC.__init__: Formula = Omega, Fermi-sea (fder 0), constant -e^2/(hbar Angstrom); "
+         "with StaticCalculator's Fermi-sea semantics (C13) the internal AHC above all bands vanishes. Chern quantisation is a statement "
+         "'up to discretisation error': bounded stand-in only (Haldane models of both builders, topological and time-reversal symmetric "
+         "phase, 36x36 / 48x48 grids, |sigma_xy c/(e^2/h) - integer| < 0.02) plus the sum rule on random Hermitian systems with the installed code.",
+    note=TB + "; np.einsum on object arrays is numpy's own sum of products; ndarray.real is the identity on object arrays, the harness takes the real part")
+
+CLAIMED["C05"] = dict(
+    text="System_R.reorder with Rvectors.reorder (real text) for EVERY permutation of 3 Wannier functions on symbolic matrices (Ham, "
+         "vector-valued AA), symbolic centres, symbolic left and (optionally separate) right R-vector shifts: X'[R,a,b,..] = X[R,p(a),p(b),..], "
+         "centres / names / both shift sets permuted alike, caches dropped (R + tau_b - tau_a recomputed), and -- through the real R_to_k chain "
+         "of C02 with symbolic K-point shift -- the first k-derivative of every matrix of the relabelled system is the relabelled derivative "
+         "of the original at every k-point. Co-centred rotation: for an exact block unitary W over two Wannier functions with a common "
+         "(symbolic) centre, the interpolated matrices and their k-derivatives of orders 0-2 of W^dagger X W equal W^dagger M(k) W. Both are "
+         "k-independent unitary changes of the Wannier gauge; invariance of energies and of gauge-covariant formulas under such a change "
+         "is the gauge-covariance contract of C04 (assumed here, bounded there). Bounded stand-in: installed run() / evaluate_k on "
+         "relabelled and U(2)-rotated random Hermitian systems.",
+    note=TB + "; external DFT contract as in C02")
+
 NOT_APPLICABLE = {
     "C20": "real-space symmetrisation is a data-dependent floating-point orbit search over irrep objects; its postcondition is only statable through an eigen-solver, no discrete/algebraic kernel is left once externals are abstracted (DESIGN section 7)",
     "C21": "rotation matrices are produced inside sympy (polynomial expansion + evalf); orthogonality/composition live in that CAS computation, outside any contract this engine can generate VCs for (DESIGN section 7)",
